@@ -60,7 +60,7 @@ int mc_main(int argc, char **argv, const McHarness *hs, int nh)
     if (argc < 2) return 2;
     for (i = 0; i < nh; i++) if (!strcmp(hs[i].name, argv[1])) hi = i;
     if (hi < 0) return 2;
-    for (i = 2; i < argc; i++) { if (!strcmp(argv[i], "-R")) runs = atoi(argv[++i]); else if (!strcmp(argv[i], "--")) { first = i + 1; break; } else if (argv[i][0] == '-' && i + 1 < argc && strcmp(argv[i], "-N")) i++; }
+    for (i = 2; i < argc; i++) { if (!strcmp(argv[i], "-R")) runs = atoi(argv[++i]); else if (!strcmp(argv[i], "--")) { first = i + 1; break; } else if (argv[i][0] == '-' && i + 1 < argc && strcmp(argv[i], "-N") && strcmp(argv[i], "-B")) i++; }
     for (r = 0; r < runs; r++) {
         pid_t pid; int st;
         fflush(stdout);
